@@ -16,7 +16,9 @@ ICONS = {"cfgeval:protocols.http.HTTPProtocol/iconmapping": "dict[str,str]"}
 
 def register(w):
     w.always_standin["C13"] = [("pygopherd/handlers/html.py::HTMLFileTitleHandler.getentry", "the title scan runs html.parser over served content (outside the subset): what becomes the entry name is checked on real files"),
-                               ("pygopherd/handlers/mbox.py::MessageHandler.getentry", "mail subjects come through the mailbox and email modules (assumed interface)")]
+                               ("pygopherd/handlers/mbox.py::MessageHandler.getentry", "mail subjects come through the mailbox and email modules (assumed interface)"),
+                               ("pygopherd/protocols/wap.py::WAPProtocol.handlerwrite", "names in WML attribute positions"),
+                               ("pygopherd/gopherentry.py::GopherEntry.handleeaext", "long sidecar lines in Gopher+ blocks")]
     w.fields("BaseGopherProtocol", entry="obj:GopherEntry")
     def replace(q, classes, **kw):
         for cls in classes:
